@@ -1022,3 +1022,85 @@ func copyClosure(info *types.Info, body ast.Node, obj types.Object) map[types.Ob
 	}
 	return set
 }
+
+
+// ReachBadReturn: is there a path from `from` to a return whose result number idx is "bad"? A result that is a plain
+// local variable is judged by the definition that reaches the return on that very path: the query first runs to a
+// definition whose right-hand side is bad and then from there to the return without passing another definition
+// (what an extracted helper looks like once it is read in place: `res, ok = refusal, false; goto end; …; if !ok { return res }`).
+// bad(nil) is asked for a definition without a usable right-hand side (tuple assignment, zero-value declaration).
+// Exits that are not return statements with enough results are passed to bad as nil as well.
+func (r *RuleCtx) ReachBadReturn(from []Pt, idx int, bad func(e ast.Expr) bool, avoid func(Pt) bool, avoidEdge func(b *cfgBlock, i int) bool) ([]Pt, bool) {
+	info := r.Info
+	for _, ex := range r.F.Points() {
+		k, ret := r.F.Exit(ex)
+		if k == NotExit {
+			continue
+		}
+		var e ast.Expr
+		if ret != nil && idx < len(ret.Results) {
+			e = ret.Results[idx]
+		}
+		var v *types.Var
+		if e != nil {
+			if id, isID := ast.Unparen(e).(*ast.Ident); isID {
+				if o, isVar := info.Uses[id].(*types.Var); isVar && !o.IsField() && !(o.Pkg() != nil && o.Parent() == o.Pkg().Scope()) {
+					v = o
+				}
+			}
+		}
+		isEx := func(q Pt) bool { return q == ex }
+		if v == nil {
+			if !bad(e) {
+				continue
+			}
+			if path, f := r.F.Reach(Query{From: from, Inclusive: true, Target: isEx, Avoid: avoid, AvoidEdge: avoidEdge}); f {
+				return path, true
+			}
+			continue
+		}
+		isDef := func(q Pt) bool { return q.Node() != nil && assignsObj(info, q.Node(), v) }
+		nDefs := 0
+		for _, dp := range r.F.Points() {
+			n := dp.Node()
+			if n == nil || !assignsObj(info, n, v) {
+				continue
+			}
+			nDefs++
+			var rhs ast.Expr
+			switch s := n.(type) {
+			case *ast.AssignStmt:
+				for i, l := range s.Lhs {
+					if objOf(info, l) == v && len(s.Rhs) == len(s.Lhs) && (s.Tok == token.ASSIGN || s.Tok == token.DEFINE) {
+						rhs = s.Rhs[i]
+					}
+				}
+			case *ast.ValueSpec:
+				for i, nm := range s.Names {
+					if info.Defs[nm] == v && i < len(s.Values) {
+						rhs = s.Values[i]
+					}
+				}
+			}
+			if !bad(rhs) {
+				continue
+			}
+			dp := dp
+			p1, f1 := r.F.Reach(Query{From: from, Inclusive: true, Target: func(q Pt) bool { return q == dp }, Avoid: avoid, AvoidEdge: avoidEdge})
+			if !f1 {
+				continue
+			}
+			p2, f2 := r.F.Reach(Query{From: []Pt{dp}, Inclusive: true, Target: isEx, Avoid: func(q Pt) bool { return q != dp && (isDef(q) || (avoid != nil && avoid(q))) }, AvoidEdge: avoidEdge})
+			if f2 {
+				return append(p1, p2...), true
+			}
+		}
+		if nDefs == 0 && bad(e) {
+			// a parameter or named result never assigned
+			if path, f := r.F.Reach(Query{From: from, Inclusive: true, Target: isEx, Avoid: avoid, AvoidEdge: avoidEdge}); f {
+				return path, true
+			}
+		}
+	}
+	return nil, false
+}
